@@ -84,8 +84,12 @@ class Run:
     def see_container(self, tag, c):
         self.obs.append((f"{tag}.volume[mL]", c.get_volume('mL'), 'vol', 'mL'))
         self.obs.append((f"{tag}.volume[uL]", c.get_volume('uL'), 'vol', 'uL'))
+        # natively, a container emptied down to rounding residue has meaningless (noise / noise) concentrations
+        residue_only = self.h.mode == 'native' and float(c.get_volume('mL')) < 1e-6
         for s in (self.water, self.salt, self.dmso):
-            if s in c.contents:
+            if s in c.contents and residue_only:
+                self.obs.append((f"{tag}.{s.name}[residue]", 0, 'flag', ''))
+            elif s in c.contents:
                 for cu in ('M', 'mg/g'):
                     try:
                         self.obs.append((f"{tag}.{s.name}[{cu}]", c.get_concentration(s, cu), 'conc', cu))
@@ -224,7 +228,9 @@ def h_compare(h):
             slack = h.rs(Fr(1, 10**dig) + Fr(1, 10**3))
         else:
             slack = h.rs(Fr(1, 10**3))
-        rel = h.rs(Fr(1, 10**5))
+        # relative resolution of the coarser configuration on the smallest amounts the scenarios handle
+        # (1 mg of DMSO = 1.3e-5 mol, 1 uL = 1e-6 L)
+        rel = h.rs(Fr(1, 10**5) + 100 * mol_res / Fr(1, 10**5) + 100 * vol_res / Fr(1, 10**6))
         if h.mode == 'native' and isinstance(xa, (int, float)) and isinstance(xb, (int, float)):
             slack = float(slack) + float(rel) * max(abs(float(xa)), abs(float(xb)))
         h.require('same-answer', h.eq(xa, xb, slack), region=kind,
